@@ -110,7 +110,7 @@ func c14Info(t reflect.Type) *c14TypeInfo {
 }
 
 func c14Build(root syntax.Node, lc *c14Local, lang syntax.LangVariant) *c14Tree {
-	t := &c14Tree{ptr: map[syntax.Node]int32{}, cms: map[syntax.Comment]int32{}, lc: lc}
+	t := &c14Tree{ptr: make(map[syntax.Node]int32, 48), lc: lc, nodes: make([]c14Exp, 0, 48)}
 	for i, v := range c14LangBits {
 		if v == lang {
 			t.bit = 1 << i
@@ -124,6 +124,9 @@ func (t *c14Tree) addNode(ptr reflect.Value, parent int, path string, slot int) 
 	n := ptr.Interface().(syntax.Node)
 	idx := len(t.nodes)
 	if cm, ok := n.(*syntax.Comment); ok {
+		if t.cms == nil {
+			t.cms = map[syntax.Comment]int32{}
+		}
 		if _, dup := t.cms[*cm]; dup {
 			t.shared = append(t.shared, path)
 		}
